@@ -144,7 +144,7 @@ def registry(chk, P):
         tt = I.module_global(mod, "TableFormTuple")
         pft = I.module_global(mod, "PotentialFormTuple")
         sig = I.module_global(mod, "PotentialFormSignatureTuple")
-        tl = ListV([I.call(tt, [Const(n), Const("cubic_spline"), W.param("x_" + n), W.param("y_" + n)], {}) for n in tables], "list")
+        tl = ListV([I.call(tt, [Const(n), Const("cubic_spline"), ListV([Num(ep.const(i + 1)) for i in range(6)], "list"), ListV([Num(ep.sym("y_%s_%d" % (n, i))) for i in range(6)], "list")], {}) for n in tables], "list")
         fl = ListV([I.call(pft, [I.call(sig, [Const(n), ListV([Const("r")], "list"), FALSE], {}), Const("r")], {}) for n in forms], "list")
         try:
             I.instantiate(reg, [PyObjV(Cfg(tl, fl))], {"register_standard": TRUE, "register_pymath_functions": TRUE}, None)
